@@ -92,7 +92,8 @@ CHECKS = {
                 technique="runtime crash injection: file images at every commit boundary of the real server, restarted and judged by oracles + differential continuation",
                 budget={"quick": 60, "thorough": 1200},
                 floors={"quick": {"c10_crash_point": 5000, "c10_distinct_image": 1500, "c10_nobody_returns": 1500, "c10_clients_resume": 300,
-                                  "c10_resume_claim": 50, "c10_resume_release": 30, "c10_resume_open": 50, "c10_resume_close": 30}}),
+                                  "c10_resume_claim": 50, "c10_resume_release": 30, "c10_resume_open": 50, "c10_resume_close": 30,
+                                  "c10_others_return": 150}}),
     "C11": dict(module="mon.checks.c11", level="exploration",
                 rule="Differential at a cut: the prefix of a random history (2 apps, 3 sides, explicit sweeps as history events, clock jumps) is executed once, "
                      "all connections are dropped and the database files copied; the kept server object and a fresh makeService on the copy then both execute "
@@ -104,7 +105,8 @@ CHECKS = {
     "C12": dict(module=H, level="exploration",
                 rule="Same engine, sweeps fired by the real TimerService on a virtual clock; every sweep judged by the must-survive oracle per mailbox.",
                 nontrivial_rule="a history counts if a sweep met a mailbox that had to survive; distinct by history hash.",
-                floors={"quick": {"c12_must_survive": 500, "c12_must_survive_subscribed": 50}}),
+                floors={"quick": {"c12_must_survive": 500, "c12_must_survive_subscribed": 50,
+                                  "c12_must_survive_recently_subscribed": 50}}),
     "C14": dict(module="mon.checks.c14", level="exploration",
                 rule="Differential: each random or directed history is executed once, then once more per chosen acknowledged claim/release/open/close with "
                      "that command re-sent at the same virtual instant on a fresh connection of the same app and side (nameplate/mailbox named explicitly, same "
@@ -112,7 +114,8 @@ CHECKS = {
                      "(timestamps included) are compared after renaming generated ids.",
                 nontrivial_rule="a history counts if it had at least one eligible acknowledged command; distinct by history hash.",
                 technique="runtime monitoring: differential comparison of executions with and without a duplicated command",
-                floors={"quick": {"c14_duplicate_pair": 1500, "c14_dup_claim": 200, "c14_dup_release": 150, "c14_dup_open": 200, "c14_dup_close": 150}}),
+                floors={"quick": {"c14_duplicate_pair": 1500, "c14_dup_claim": 200, "c14_dup_release": 150, "c14_dup_open": 200, "c14_dup_close": 150,
+                                  "c14_dup_kept_connected": 500}}),
     "C15": dict(module=H, level="exploration",
                 rule="Same engine with a usage database; every retirement judged by the conservation monitor and an independent classifier; "
                      "plus the exhaustive product 1-4 sides x 8 moods per side x pruned x blur through the real _summarize_mailbox/_summarize_nameplate_usage.",
@@ -123,7 +126,8 @@ CHECKS = {
                 rule="Same engine with blur intervals 1,7,60,61,97,3600,86400 s; every usage row written judged by the blur post-condition.",
                 nontrivial_rule="a history counts if a blurred row was written; distinct by history hash.",
                 floors={"quick": {"c16_blur_bind": 100, "c16_blur_mailbox-close": 20, "c16_blur_nameplate-release": 20,
-                                  "c16_blur_mailbox-pruned": 20, "c16_blur_nameplate-pruned": 10}}),
+                                  "c16_blur_mailbox-pruned": 20, "c16_blur_nameplate-pruned": 10,
+                                  "c16_crash_image_swept": 200, "c16_blur_pruned_row": 200}}),
     "C17": dict(module=H, level="exploration",
                 rule="Directed product protocol-state x command (13 states x 31 commands, each followed by a ping probe, a list and the same command again), "
                      "then random sequences with 35% malformed/out-of-order commands over hostile Unicode identifiers (NUL, combining marks, astral, quotes, SQL "
@@ -151,7 +155,8 @@ CHECKS = {
                 technique="runtime fault injection on the real code: kill/exception at every enumerated event, oracle over the files left behind",
                 budget={"quick": 90, "thorough": 900},
                 floors={"quick": {"c19_crash_point": 300, "c19_die-stmt": 30, "c19_die-fs": 10, "c19_raise-fs": 8, "c19_raise-auth": 40,
-                                  "c19_raise-line": 30, "c19_strace": 20, "c19_existing_file": 150}}),
+                                  "c19_raise-line": 30, "c19_strace": 20, "c19_existing_file": 150,
+                                  "c19_sibling_file_checked": 200}}),
     "C20": dict(module="mon.checks.c20", level="fault_enumeration", exhaustive=True,
                 rule="Generated version-1 usage databases (0-200 rows per table, NULLs, 2^63-1, floats, blobs, long and NUL-containing strings, several status rows) "
                      "upgraded through the real create_or_upgrade_usage_db; per input the upgrade is interrupted at every SQL statement (trace callback, fork + "
